@@ -46,6 +46,8 @@ type Gen struct {
 	TableNewOnly      bool // tables are only created (with tagged cell data), never edited
 	NoCellImage       bool
 	StyleEdits        bool // registered styles are also changed in place through the public structs
+	BigImages         bool // now and then an image whose media part exceeds 64 KiB (written through, not buffered; large enough for anything that treats big parts differently)
+	SharedStyleIDs    bool // custom style ids come from a small pool shared by all documents of a run (same id, different definitions)
 	NoCellList        bool // no lists inside table cells (they use the process-wide numbering registry)
 	ObsEvery          int  // > 0: about one accessor sweep ("obs") every ObsEvery ops
 	ObsCounts         bool // accessor sweeps read the note counts (which come from the process-wide registry)
@@ -421,6 +423,9 @@ func (g *Gen) opImage() (sim.Op, bool) {
 	op := sim.Op{K: "img", I: []int{f, r.Range(1, 48), r.Range(1, 48), g.tag*7919 + r.Intn(1000), []int{0, 1, 2, 3, 4, 9}[r.Intn(6)], r.Intn(4), r.Intn(5), r.Intn(4)},
 		F: []float64{float64(r.Range(5, 150)), float64(r.Range(5, 150)), float64(r.Intn(20)), float64(r.Intn(20))},
 		S: []sim.Str{g.str(g.ImageName(f)), g.str(g.PlainText()), g.str(g.PlainText())}}
+	if g.BigImages && r.Chance(0.3) {
+		op.I[0], op.I[1], op.I[2] = 0, r.Range(150, 190), r.Range(150, 190) // PNG noise: about 3 bytes per pixel
+	}
 	if g.ntables > 0 && r.Chance(0.25) && !g.NoCellImage {
 		op.K = "cellimg"
 		op.I = append(op.I, r.Intn(g.ntables), r.Range(0, g.MaxRows-1), r.Range(0, g.MaxCols-1))
@@ -510,6 +515,12 @@ func (g *Gen) opStyle() (sim.Op, bool) {
 	case len(g.styles) == 0 || r.Chance(0.4):
 		g.tag++
 		id := fmt.Sprintf([]string{"Custom%d", "Custom%d", "My Style %d", "Body.Text(%d)", "样式%d", "a-b_%d"}[r.Intn(6)], g.tag)
+		if g.SharedStyleIDs && r.Chance(0.6) {
+			// the id another document of this run is likely to define too - based on something else
+			id = r.Pick("Section", "Callout", "BodyX")
+			g.styles = append(g.styles, id)
+			return sim.Op{K: "style.add", S: []sim.Str{g.str(id), g.str("custom " + id), g.str("paragraph"), g.str(r.Pick("Heading1", "Heading2", "Heading3", "Normal", "Title"))}}, true
+		}
 		g.styles = append(g.styles, id)
 		typ := r.Pick("paragraph", "paragraph", "character")
 		if r.Bool() {
